@@ -585,6 +585,7 @@ func clientMutWorkload(kind kit.Kind, iters int, seed int64) {
 		tot.rootNotes += rootNotes
 	}
 	tot.notifHandled = notifHandled.Load()
+	rep.Eval(int(tot.rounds)) // every mutator round is an execution of its own
 	rep.Count("mut_rounds", tot.rounds)
 	rep.Count("mut_rounds_with_working_roots_list", tot.ready)
 	rep.Count("mut_roots_probes", tot.probes)
